@@ -9,6 +9,7 @@ import (
 
 	"github.com/dominant-strategies/go-quai/common"
 	"github.com/dominant-strategies/go-quai/core/types"
+	"github.com/dominant-strategies/go-quai/params"
 	"github.com/dominant-strategies/go-quai/trie"
 
 	"verif/internal/hnet"
@@ -105,6 +106,28 @@ func (c *mutCtx) keyOf(a common.Address) *hnet.QuaiKey {
 	return nil
 }
 
+// otherQiAddr returns a wallet Qi address that is neither an output address nor
+// an input owner of tx.
+func (c *mutCtx) otherQiAddr(tx *types.Transaction) []byte {
+	used := map[string]bool{}
+	for _, o := range tx.TxOut() {
+		used[string(o.Address)] = true
+	}
+	for _, ti := range tx.TxIn() {
+		for _, k := range c.d.w.Qi {
+			if string(k.Pub) == string(ti.PubKey) {
+				used[string(k.Addr.Bytes())] = true
+			}
+		}
+	}
+	for _, k := range c.d.w.Qi {
+		if !used[string(k.Addr.Bytes())] {
+			return common.CopyBytes(k.Addr.Bytes())
+		}
+	}
+	return common.CopyBytes(c.d.w.Qi[0].Addr.Bytes())
+}
+
 func quaiInner(tx *types.Transaction) *types.QuaiTx {
 	v, r, s := tx.GetEcdsaSignatureValues()
 	in := &types.QuaiTx{ChainID: new(big.Int).Set(tx.ChainId()), Nonce: tx.Nonce(), GasPrice: new(big.Int).Set(tx.GasPrice()), Gas: tx.Gas(),
@@ -143,6 +166,15 @@ func alterQuai(kind string, resign bool, change func(c *mutCtx, in *types.QuaiTx
 		for _, i := range idxOfType(b, types.QuaiTxType) {
 			tx := b.Transactions()[i]
 			if tx.To() == nil {
+				continue
+			}
+			// a transfer to oneself has the same effect for every value: the
+			// re-signed variant would be a different valid block, not a mutant
+			if from, ok := c.senderOf(tx); !ok || from.Equal(*tx.To()) {
+				continue
+			}
+			// a conversion request before the controller kicks in fails whatever its value
+			if resign && tx.To().IsInQiLedgerScope() && b.PrimeTerminusNumber().Uint64() < params.ControllerKickInBlock {
 				continue
 			}
 			cand = append(cand, i)
@@ -405,6 +437,62 @@ func mutations() []mutation {
 			c.setTxs(b, txs)
 			return map[string]any{"index": pos, "tx": txBytes(ntx)}, true
 		}},
+		{kind: "alter-qi-tx-recipient-keep-sig", apply: func(c *mutCtx, b *types.WorkObject) (map[string]any, bool) {
+			i, ok := pickIdx(c.r, idxOfType(b, types.QiTxType))
+			if !ok {
+				return nil, false
+			}
+			txs := cloneTxs(b)
+			old := txs[i]
+			in := &types.QiTx{ChainID: new(big.Int).Set(old.ChainId()), TxIn: append(types.TxIns{}, old.TxIn()...), Signature: old.GetSchnorrSignature(), Data: common.CopyBytes(old.Data())}
+			for _, o := range old.TxOut() {
+				in.TxOut = append(in.TxOut, types.TxOut{Denomination: o.Denomination, Address: common.CopyBytes(o.Address), Lock: o.Lock})
+			}
+			if len(in.TxOut) == 0 {
+				return nil, false
+			}
+			in.TxOut[0].Address = c.otherQiAddr(old)
+			ntx := types.NewTx(in)
+			txs[i] = ntx
+			c.setTxs(b, txs)
+			return map[string]any{"index": i, "old_tx": txBytes(old), "new_tx": txBytes(ntx)}, true
+		}},
+		{kind: "alter-qi-tx-recipient-resigned", apply: func(c *mutCtx, b *types.WorkObject) (map[string]any, bool) {
+			i, ok := pickIdx(c.r, idxOfType(b, types.QiTxType))
+			if !ok {
+				return nil, false
+			}
+			txs := cloneTxs(b)
+			old := txs[i]
+			var ins []hnet.Utxo
+			for _, ti := range old.TxIn() {
+				var key *hnet.QiKey
+				for _, k := range c.d.w.Qi {
+					if string(k.Pub) == string(ti.PubKey) {
+						key = k
+					}
+				}
+				if key == nil {
+					return nil, false
+				}
+				ins = append(ins, hnet.Utxo{Hash: ti.PreviousOutPoint.TxHash, Index: ti.PreviousOutPoint.Index, Key: key})
+			}
+			var outs []hnet.QiOut
+			for _, o := range old.TxOut() {
+				outs = append(outs, hnet.QiOut{Denom: o.Denomination, Addr: common.CopyBytes(o.Address)})
+			}
+			if len(outs) == 0 {
+				return nil, false
+			}
+			outs[0].Addr = c.otherQiAddr(old)
+			ntx, err := c.d.w.QiTx(ins, outs, old.Data())
+			if err != nil {
+				return nil, false
+			}
+			txs[i] = ntx
+			c.setTxs(b, txs)
+			return map[string]any{"index": i, "old_tx": txBytes(old), "new_tx": txBytes(ntx)}, true
+		}},
 		// ------------------------------------------------ body: inbound ETXs
 		{kind: "alter-inbound-etx-value", apply: func(c *mutCtx, b *types.WorkObject) (map[string]any, bool) {
 			i, ok := pickIdx(c.r, idxOfType(b, types.ExternalTxType))
@@ -527,24 +615,21 @@ func mutations() []mutation {
 			// a sibling header whose nonce was never ground: its PoW hash meets no target
 			u := types.CopyWorkObjectHeader(c.orig.WorkObjectHeader())
 			var bad types.BlockNonce
-			for try := 0; try < 64; try++ {
+			hc := c.d.n.Zone().Core.Slice().HeaderChain()
+			found := false
+			for try := 0; try < 64 && !found; try++ {
 				c.r.Read(bad[:])
 				u.SetNonce(bad)
-				h, err := c.d.n.Engine.ComputePowHash(u)
-				if err != nil {
-					return nil, false
-				}
-				// far above even a 1/1024 workshare target
-				tgt := new(big.Int).Div(new(big.Int).Lsh(big.NewInt(1), 256), u.Difficulty())
-				tgt.Mul(tgt, big.NewInt(4096))
-				if new(big.Int).SetBytes(h.Bytes()).Cmp(tgt) > 0 {
-					break
-				}
+				// by the node's own classification neither a block nor a work share nor a sub share
+				found = hc.UncleWorkShareClassification(u) == types.Invalid
+			}
+			if !found {
+				return nil, false
 			}
 			uncles := append(append([]*types.WorkObjectHeader{}, b.Uncles()...), u)
 			b.Body().SetUncles(uncles)
 			b.Header().SetUncleHash(types.CalcUncleHash(uncles))
-			return map[string]any{"uncle_hash": u.Hash().Hex(), "uncles": len(uncles)}, true
+			return map[string]any{"uncle_hash": u.Hash().Hex(), "uncles": len(uncles), "node_classification": "types.Invalid (UncleWorkShareClassification)"}, true
 		}},
 		{kind: "add-uncle-ancestor", apply: func(c *mutCtx, b *types.WorkObject) (map[string]any, bool) {
 			u := types.CopyWorkObjectHeader(c.parent.WorkObjectHeader())
